@@ -44,7 +44,7 @@ EPS_LISTS = {
 
 def _install():
     import artap.operators as O
-    stubs.install((O, 'float', ops.sfloat), (O, 'math', stubs.math_shim))
+    stubs.install((O, 'float', ops.sfloat), (O, 'math', stubs.math_shim), (O, 'np', stubs.numpy_shim))
     return O
 
 
@@ -279,6 +279,42 @@ def reuse(args):
     return body
 
 
+def containers(args):
+    """The cost vectors handed over as tuples / numpy arrays (object arrays of proxies when symbolic, float arrays in
+    replays) and used in MORE THAN ONE comparison: the verdicts must be the textbook ones for the ORIGINAL values
+    (a comparator that writes into its arguments is wrong from the second comparison on) and the arguments must be
+    left unchanged."""
+    m, kind, which = args['m'], args['kind'], args['which']
+    O = _install()
+    import numpy as np
+    eps = EPS_LISTS[m][0]
+
+    def body(ctx):
+        comp = O.ParetoDominance() if which == 'pareto' else O.EpsilonDominance(list(eps))
+        orig = [_vec(ctx, n, m, 'real') for n in 'pqr']
+        if kind == 'ndarray':
+            P, Q, R = [np.array(v, dtype=object if ctx.symbolic else float) for v in orig]
+        else:
+            P, Q, R = [tuple(v) for v in orig]
+        p, q, r = orig
+        pq = comp.compare(P, Q)
+        pr = comp.compare(P, R)
+        qr = comp.compare(Q, R)
+        qp = comp.compare(Q, P)
+        ctx.output('verdicts', [pq, pr, qr, qp])
+
+        def agrees(a, b, e):
+            same = And(*[x == y for x, y in zip(a[:-1], b[:-1])])
+            return And(Not(same), textbook(a, b) != e) if which == 'eps' else textbook(a, b) != e
+        ctx.check('first-comparison', agrees(p, q, pq))
+        ctx.check('second-comparison-of-an-already-compared-vector', agrees(p, r, pr))
+        ctx.check('third-comparison', agrees(q, r, qr))
+        ctx.check('swapped-comparison', agrees(q, p, qp))
+        ctx.check('arguments-not-modified',
+                  Or(*[ops.differs(a, b, 0.0) for V, v in ((P, p), (Q, q), (R, r)) for a, b in zip(list(V), v)]))
+    return body
+
+
 def configs(tier):
     M = 4 if tier == 'quick' else 6
     MD = 2 if tier == 'quick' else 3
@@ -304,6 +340,11 @@ def configs(tier):
                     'args': {'m': m, 'marker': 'bool', 'symbolic_eps': True}, 'weight': 5})
         out.append({'name': 'eps-direct-m%d' % m, 'task': 'eps_direct',
                     'args': {'m': m, 'marker': 'real', 'eps': EPS_LISTS[m][0]}, 'weight': 2})
+    for which in ('pareto', 'eps'):
+        for kind in ('ndarray', 'tuple'):
+            for m in ((2,) if tier == 'quick' else (1, 2, 3)):
+                out.append({'name': 'containers-%s-%s-m%d' % (which, kind, m), 'task': 'containers',
+                            'args': {'m': m, 'kind': kind, 'which': which}, 'weight': 9 ** m, 'split': 32, 'engine': {'validate': 30}})
     if tier == 'thorough':
         out.append({'name': 'crosshair-second-opinion', 'task': 'crosshair', 'args': {'functions': ['pareto_antisymmetry_m2', 'pareto_definition_m1']}, 'weight': 1000,
                     'engine': {'validate': 0, 'path_timeout_s': 900}})
